@@ -18,7 +18,7 @@ import numpy as np
 from harness import common
 from harness.common import zlit, zlist
 
-GEN_MODULES = ['pdf']
+GEN_MODULES = ['pdf', 'livetime']
 MODEL_TARGETS = ['model/M_Pdf.vo', 'model/M_PdfState.vo', 'model/M_PdfExt.vo']
 PROOF_TARGETS = ['proofs/P_PdfTime.vo', 'proofs/P_Pdf.vo', 'proofs/P_PdfBridge.vo', 'proofs/P_PdfState.vo',
                  'proofs/P_PdfExt.vo', 'proofs/P_PdfSmooth.vo']
